@@ -76,9 +76,16 @@ def gen_history(rng, opts):
             pick = rng.choices(
                 ["assume", "assign", "arith", "bit", "cast", "select", "forget", "project", "rename", "expand",
                  "wassign", "join", "meet", "widen", "narrow", "widenthr", "copy", "top", "bot",
-                 "q_leq", "q_entails", "q_csts", "bounds", "normalize"],
-                [14, 10, 10, 5, 2, 3, 3, 2, 2, 2, 3, 7, 5, 4, 3, 2, 6, 1, 1, 4, 5, 2, 10, 1])[0]
-        if pick == "bounds":
+                 "q_leq", "q_entails", "q_csts", "bounds", "normalize", "diseq"],
+                [14, 10, 10, 5, 2, 3, 3, 2, 2, 2, 3, 7, 5, 4, 3, 2, 6, 1, 1, 4, 5, 2, 10, 1, 3])[0]
+        if pick == "diseq":
+            if nv < 2:
+                continue
+            a, b = sorted(rng.sample(range(nv), 2))
+            sg = rng.choice([1, -1]); m = rng.choice([1, 1, 1, 2, 3])
+            k = rng.choice([0, 0, 1, -1, 2, -2, 3, -3, 5])
+            ops.append("assume %d 1 C ne E 2 %d %d %d %d %d" % (r, sg * m, a, -sg * m, b, k))
+        elif pick == "bounds":
             n = rng.randint(1, 3)
             ops.append("assume %d %d %s" % (r, n, " ".join(fmt_cst(bound_cst(rng, nv)) for _ in range(n))))
         elif pick == "assume":
@@ -270,7 +277,12 @@ def parse_ans_cst(s):
 MAXS = 48
 
 
-def oracle(line, ans, rng=None, checks=("at", "leq", "entails", "csts", "bot")):
+def oracle_dense(line, ans, rng=None, checks=("at", "leq", "entails", "csts", "bot")):
+    """same oracle with a dense sample of small stores (for short histories over few variables)"""
+    return oracle(line, ans, rng, checks, dense=True)
+
+
+def oracle(line, ans, rng=None, checks=("at", "leq", "entails", "csts", "bot"), dense=False):
     """replays the history on sampled concrete stores; returns a text with the failing
     step and store, or None"""
     ops = [o.split() for o in line.split(" ; ")]
@@ -284,7 +296,11 @@ def oracle(line, ans, rng=None, checks=("at", "leq", "entails", "csts", "bot")):
     def rand_store():
         return tuple([r0.choice(POOL) for _ in range(nv)] + [r0.choice([0, 1]), r0.choice([0, 1])])
 
+    maxs = MAXS
     top_samples = [rand_store() for _ in range(MAXS)]
+    if dense:
+        maxs = 700
+        top_samples += [tuple([r0.randint(-7, 7) for _ in range(nv)] + [r0.choice([0, 1]), r0.choice([0, 1])]) for _ in range(650)]
     regs = [list(top_samples) for _ in range(nregs)]
     ai = 0
     last_state = {}
@@ -292,8 +308,8 @@ def oracle(line, ans, rng=None, checks=("at", "leq", "entails", "csts", "bot")):
 
     def trim(l):
         l = list(dict.fromkeys(l))
-        if len(l) > MAXS:
-            l = r0.sample(l, MAXS)
+        if len(l) > maxs:
+            l = r0.sample(l, maxs)
         return l
 
     def upd(s, x, v):
